@@ -81,6 +81,8 @@ def make_case(rng, i):
             'load': {'A': 0.004, 'B': 0.0, 'C': 0.0, 'S': 0.0, 'W': 0.0, 'step_t': None, 'step_A': 0.0, 'unit': 'mNm'},
             'ic': {'pos': GEN.Q('AngularPosition', 0.0, 'rad'), 'speed': GEN.Q('AngularSpeed', 0.0, 'rad/s'), 'pwm': None},
             'rules': [], 'stop': None}
+    if i % 5 == 2:
+        spec['load']['reentrant'] = 'inplace-time'          # the load function converts the instant it receives in place (sim/build.py)
     sched = [{'op': 'run', 'dt': dt, 'T': T}]
     kind = i % 7
     info = {'m': m, 'e': e, 'n': n, 'form': form, 'forced': forced, 'kind': 'fresh'}
@@ -212,6 +214,8 @@ def one(ctx, i):
     ctx.seen('dt_T_units', d0['dt']['u'] + '|' + d0['T']['u'])
     if overrun_prone(info['m'], info['e'], info['n']) and d0['dt']['u'] == d0['T']['u'] and info['form'] == 'literal':
         ctx.count('overrun_prone_pairs')
+    if spec['load'].get('reentrant'):
+        ctx.count('load_functions_converting_the_instant_in_place')
     if info.get('converted_in_place'):
         ctx.count('durations_converted_in_place')
     if info.get('failed_first_attempt'):
